@@ -13,6 +13,7 @@ import os
 
 from ..core import Machinery
 from ..drivers import listing_drv as drv
+from .list_common import one_event, selfcheck
 
 WITNESSES = ("W_NoWindowSplitMove", "W_NoFinalizingRename")
 
@@ -113,6 +114,45 @@ def e3(ctx):
     return scen, count, descs
 
 
+def corrupted(scen, verdicts, descs):
+    import copy
+
+    out = {}
+    valid = lambda i: descs[i - 1]["kind"] in ("rf", "md") and not descs[i - 1]["tmp"] and descs[i - 1]["ext"] and descs[i - 1]["tok"] \
+        and descs[i - 1]["depth"]
+    for s, v in zip(scen, verdicts):
+        if v["v"] != "ACCEPT":
+            continue
+        for i, e in enumerate(s["events"]):
+            def put(label, clause, mod):
+                if label not in out:
+                    e2 = copy.deepcopy(e)
+                    mod(e2)
+                    out[label] = (label, one_event(s, i, e2), clause)
+
+            if e["ev"] == "disp" and not e["dir"]:
+                if e["k"] != "moved" and e["outs"] and valid(e["s"]):
+                    put("delivery removed from the log", "C15-drops-event-for-listable-path", lambda e2: e2.update(outs=[]))
+                if e["k"] != "moved" and not e["outs"] and descs[e["s"] - 1]["tmp"]:
+                    put("delivery of a tmp. path added to the log", "C15-delivers-event-for-path-the-listing-would-not-list",
+                        lambda e2: e2.update(outs=[dict(k=e["k"], p=e["s"], q=0)]))
+                if e["k"] == "moved" and descs[e["s"] - 1]["tmp"] and e["outs"] and e["outs"][0]["k"] == "created":
+                    put("finalizing rename logged as a move", "C15-finalizing-rename-is-not-a-creation",
+                        lambda e2: e2.update(outs=[dict(k="moved", p=e["s"], q=e["d"])]))
+                if e["k"] == "moved" and descs[e["d"] - 1]["tmp"] and e["outs"] and e["outs"][0]["k"] == "deleted":
+                    put("rename to a tmp. name logged as nothing", "C15-rename-to-non-matching-name-is-not-a-deletion",
+                        lambda e2: e2.update(outs=[]))
+                if e["outs"]:
+                    put("delivered twice", "C15-more-than-one-delivery", lambda e2: e2["outs"].append(e2["outs"][0]))
+            if e["ev"] == "disp" and e["dir"] and valid(e["s"]) and e["k"] != "moved":
+                put("directory event delivered", "C15-delivers-directory-event", lambda e2: e2.update(outs=[dict(k=e["k"], p=e["s"], q=0)]))
+            if e["ev"] == "lsq" and e["listed"] and e["dlv"] and descs[e["d"] - 1]["kind"] == "rf":
+                put("filter says no where the listing says yes", "C15-filter-and-listing-disagree", lambda e2: e2.update(dlv=False))
+        if len(out) >= 7:
+            break
+    return list(out.values())
+
+
 def run(ctx):
     e1(ctx)
     scen, count, descs = e3(ctx)
@@ -135,7 +175,8 @@ def run(ctx):
     mv = [e for e in scen[0]["events"] if e["ev"] == "disp" and e["k"] == "moved" and e["outs"]]
     if mv:
         ctx.sample(dict(name=scen[0]["name"], src=descs[mv[0]["s"] - 1]["rel"], dst=descs[mv[0]["d"] - 1]["rel"], event=mv[0]))
-    ctx.validate("ListingTrace", "ListingTrace.cfg", scen, label="event filter", relevant=lambda c: c.startswith("C15-"))
+    verdicts = ctx.validate("ListingTrace", "ListingTrace.cfg", scen, label="event filter", relevant=lambda c: c.startswith("C15-"))
+    selfcheck(ctx, "ListingTrace", "ListingTrace.cfg", corrupted(scen, verdicts, descs), need=5)
 
 
 def replay(ctx, path):
